@@ -4,7 +4,7 @@ import "time"
 
 func init() {
 	plans["C20"] = Plan{Prop: "C20", Level: "exploration",
-		Rule: "seeded histories interleaving batches, dataset create/delete, BackupManager.Run() and hub restarts (new BackupManager, persisted cursor); native mode, rsync mode for every 4th history when rsync is on PATH; after EVERY completed backup run the backup location is restored into an empty directory (badger Load / copied directory), opened with NewStore, and every read answer (catalogue, listings, feeds with tokens, lookups, relations, core.Dataset, namespaces) is compared with the source hub's answers at the start of the run; plus one foreign-location case per child (directory hash before/after). Busy runs (native mode, at most two per history): one client appends new single-entity batches to one dataset while BackupManager.Run() streams a 4000-entity store and the scheduler fires three more invocations 3 ms apart; the restore of that run must be the state before the run plus a prefix of the acknowledged batches (the same prefix in listing and change feed, every other answer unchanged, no read API panics), and the quiet run that follows must restore to the complete state. Non-trivial = >= 2 backup runs with a write between them",
+		Rule:        "seeded histories interleaving batches, dataset create/delete, BackupManager.Run() and hub restarts (new BackupManager, persisted cursor); native mode, rsync mode for every 4th history when rsync is on PATH; after EVERY completed backup run the backup location is restored into an empty directory (badger Load / copied directory), opened with NewStore, and every read answer (catalogue, listings, feeds with tokens, lookups, relations, core.Dataset, namespaces) is compared with the source hub's answers at the start of the run; plus one foreign-location case per child (directory hash before/after). Busy runs (native mode, at most two per history): one client appends new single-entity batches to one dataset while BackupManager.Run() streams a 4000-entity store and the scheduler fires three more invocations 3 ms apart; the restore of that run must be the state before the run plus a prefix of the acknowledged batches (the same prefix in listing and change feed, every other answer unchanged, no read API panics), and the quiet run that follows must restore to the complete state. Non-trivial = >= 2 backup runs with a write between them",
 		Assumptions: append([]string{"writes overlap a backup run only in the busy-run operation (one sequential client, new ids only), where the state at the start of the run is known up to that client's prefix", "restore = badger DB.Load of datahub-backup.kv into an empty directory (native) or opening the rsync'ed directory copy"}, assumeStore...),
 		Stages: func(tier string) []Stage {
 			ch, cs := 16, 4
